@@ -101,8 +101,9 @@ def main():
         sys.stdout.flush()
     missed = [r['mutant'] for r in results if not r.get('detected')]
     print('SUMMARY mutants=%d detected=%d missed=%s' % (len(results), len(results) - len(missed), missed))
-    with open(os.path.join(HERE, 'selftest', 'sensitivity_last.json'), 'w') as f:
-        json.dump(results, f, indent=1, sort_keys=True)
+    if not args:        # only a complete run is recorded
+        with open(os.path.join(HERE, 'selftest', 'sensitivity_last.json'), 'w') as f:
+            json.dump(results, f, indent=1, sort_keys=True)
     return 0
 
 
